@@ -96,6 +96,10 @@ pub fn game_case(case_: &gen::GameCase, corp: &corpus::Corpus, rep: &mut Report)
     let mut path: Vec<String> = vec![];
     let mut keys: Vec<u64> = vec![];
     let mut feats: BTreeSet<&'static str> = BTreeSet::new();
+    // a third of the games apply the moves the way the engine's own position command does:
+    // find_move (a legality probe of every pseudo-legal move) on the live board, then make_move
+    let live = case_.start[3] % 3 == 0;
+    rep.class(if live { "lookup:live-find_move(as the position command does)" } else { "lookup:on-a-clone" });
     check_state(&board, &game, &keys, &start_fen, &path, None, rep)?;
     for &c in &case_.choices {
         let legal = game.cur.legal_moves();
@@ -104,7 +108,8 @@ pub fn game_case(case_: &gen::GameCase, corp: &corpus::Corpus, rep: &mut Report)
         }
         let m = gen::choose_move(&game, &legal, case_.weighted, c);
         let u = m.uci();
-        let Some(ply) = eng::find_ply(&board, &u) else {
+        let found = if live { guard(|| board.find_move(&u).ok()).ok().flatten() } else { eng::find_ply(&board, &u) };
+        let Some(ply) = found else {
             rep.class("c01-mismatch-skipped");
             break;
         };
@@ -154,7 +159,13 @@ pub fn game_case(case_: &gen::GameCase, corp: &corpus::Corpus, rep: &mut Report)
         if game.cur_repeats_earlier() {
             feats.insert("repetition");
         }
-        check_state(&board, &game, &keys, &start_fen, &path, Some(&m), rep)?;
+        check_state(&board, &game, &keys, &start_fen, &path, Some(&m), rep).map_err(|mut v| {
+            if live {
+                v.sig = format!("{}/live-lookup", v.sig);
+                v.replay["live"] = json!(true);
+            }
+            v
+        })?;
         // children of the new position are not remembered unless they occurred earlier
         if c % 8 == 0 {
             for cm in game.cur.legal_moves().iter().take(6) {
@@ -231,7 +242,9 @@ pub fn replay(_ctx: &Ctx, case_: &Value) -> Report {
             rep.infra_errors.push(format!("replay move {u} not legal per oracle"));
             return rep;
         };
-        let Some(ply) = eng::find_ply(&board, u) else {
+        let live = case_["live"].as_bool() == Some(true);
+        let found = if live { guard(|| board.find_move(u).ok()).ok().flatten() } else { eng::find_ply(&board, u) };
+        let Some(ply) = found else {
             rep.infra_errors.push(format!("engine does not offer {u} (C01's subject)"));
             return rep;
         };
@@ -265,9 +278,9 @@ pub fn replay(_ctx: &Ctx, case_: &Value) -> Report {
 }
 
 pub const LEVEL: &str = "exploration";
-pub const RULE: &str = "proptest-generated legal games up to 300 (quick) / 400 (thorough) plies, uniform and special-move/repetition-weighted, from startpos / corpus / synthesised starts (half-move clocks 0..150, move numbers 1..6000) / pattern starts. After every move: 64 squares, side to move, 4 castling rights, e.p. file, half-move clock, full-move number == independent oracle state machine; set of remembered keys == keys of the earlier positions; position_reached(current) iff the oracle says the position occurred earlier; unvisited children not remembered. Non-trivial = game containing castling, e.p. capture, promotion, capture of a home rook with its right still present (incl. by a promoting pawn), king/home-rook move losing rights, clock passing 50 or 100, a repetition, or large clocks at the start; distinct by (start, move sequence).";
+pub const RULE: &str = "proptest-generated legal games up to 300 (quick) / 400 (thorough) plies, uniform and special-move/repetition-weighted, from startpos / corpus / synthesised starts (half-move clocks 0..150, move numbers 1..6000) / pattern starts. A third of the games apply each move as the engine's own position command does (find_move on the live board, then make_move); the others look moves up on a clone. After every move: 64 squares, side to move, 4 castling rights, e.p. file, half-move clock, full-move number == independent oracle state machine; set of remembered keys == keys of the earlier positions; position_reached(current) iff the oracle says the position occurred earlier; unvisited children not remembered. Non-trivial = game containing castling, e.p. capture, promotion, capture of a home rook with its right still present (incl. by a promoting pawn), king/home-rook move losing rights, clock passing 50 or 100, a repetition, or large clocks at the start; distinct by (start, move sequence).";
 pub const ASSUMPTIONS: &[&str] = &[
     "the independent rules oracle (vf/oracle.rs) as the reference state machine",
     "e.p. file and remembered keys are read through the cfg(rce_verif) accessors verif_en_passant_file / verif_remembered_keys",
-    "moves are looked up on a clone, so a C02 defect cannot surface here",
+    "two thirds of the games look moves up on a clone, so a C02 defect cannot surface there; one third uses the live board as the UCI layer does (signature suffix /live-lookup)",
 ];
